@@ -351,6 +351,8 @@ func (d *Device) ProcessEvents(inputEvents <-chan *input.InputEvent) {
 		log.Info("active midi notes cleanup", d.logFields(logger.Debug)...)
 	}
 
+	// LED feedback goroutine may still be in the middle of its last refresh
+	d.eventProcessMutex.Lock()
 	for evcode := range d.noteTracker {
 		d.NoteOff(&input.InputEvent{
 			Source: input.Handler{
@@ -368,6 +370,7 @@ func (d *Device) ProcessEvents(inputEvents <-chan *input.InputEvent) {
 	for identifier := range d.analogNoteTracker {
 		d.AnalogNoteOff(identifier, &input.InputEvent{})
 	}
+	d.eventProcessMutex.Unlock()
 
 	log.Info("virtual midi device waiting...", d.logFields(logger.Debug)...)
 	wg.Wait()
